@@ -19,8 +19,11 @@ import (
 // replayFc remembers the verification context of every obligation that may have to be replayed (filled by the drivers).
 var replayFc = map[*Obligation]*FnCtx{}
 
+var replaySpent time.Duration
+
 const (
-	replayModelBudget = 100 * time.Second // model extraction (solver session)
+	replayModelBudget = 150 * time.Second // model extraction (solver session)
+	replayTotalBudget = 20 * time.Minute  // all replays of one govc run
 	replayTestBudget  = 360 * time.Second // go test (a cold build of the package's test binary can take minutes; the test itself runs with -timeout 60s)
 )
 
@@ -40,6 +43,16 @@ func genericReplay(eng *Engine, ob *Obligation, repo, verif string) (reproduced 
 			}
 		}
 	}()
+	// overall cap per process: a check with many violations must not spend hours replaying
+	if replaySpent > replayTotalBudget {
+		detail["note"] = fmt.Sprintf("replay budget of this run exhausted (%s spent on earlier violations)", replaySpent.Round(time.Second))
+		return false, detail
+	}
+	t0 := time.Now()
+	defer func() {
+		replaySpent += time.Since(t0)
+		detail["replay_seconds"] = time.Since(t0).Seconds()
+	}()
 	fc := replayFc[ob]
 	if fc == nil || fc.root == nil {
 		detail["note"] = "no replay for this kind of obligation (" + ob.Kind + "): not a function under contract"
@@ -54,6 +67,8 @@ func genericReplay(eng *Engine, ob *Obligation, repo, verif string) (reproduced 
 		mode = "panic-at"
 	case ob.Kind == "post", ob.Kind == "panic-spec", ob.Kind == "panic-iff":
 		mode = ob.Kind
+	case ob.Kind == "hint" && replayReturnHint(eng.specFor(fc.root), ob) != nil:
+		mode = "post" // `hint return E` is an assertion about the state at the return: evaluated like a postcondition
 	default:
 		detail["note"] = "obligation kind " + ob.Kind + " is not observable by running the function (loop invariant, frame, hint, callee precondition, lemma ...)"
 		return false, detail
@@ -78,10 +93,11 @@ func genericReplay(eng *Engine, ob *Obligation, repo, verif string) (reproduced 
 
 	// 1. model extraction
 	deadline := time.Now().Add(replayModelBudget)
-	script := strings.TrimSuffix(strings.TrimSpace(fc.renderOne(ob, false)), "(check-sat)")
+	script := fc.renderForReplay(ob, false)
+	light := fc.renderForReplay(ob, true) // for candidate models: without the quantified lemmas of earlier obligations
 	ground, prefer, nGround := fc.groundPreconditions(spec)
 	detail["precondition_instances"] = nGround
-	sess, solver, err := openModelSession(ob, script, fc.heapTypingAxioms()+ground, prefer, deadline)
+	sess, solver, err := openModelSession(ob, script, light, fc.heapTypingAxioms(false)+ground, fc.heapTypingAxioms(true)+ground, prefer, deadline)
 	if err != nil {
 		detail["note"] = "model extraction: " + err.Error()
 		return false, detail
@@ -93,6 +109,7 @@ func genericReplay(eng *Engine, ob *Obligation, repo, verif string) (reproduced 
 		detail["model_kind"] = "candidate model: the solver answered `unknown` (quantified background axioms); only the run of the real code decides"
 	}
 	m := &modelReader{fc: fc, s: sess, objs: map[string]*rObj{}, blocks: map[string]*rBlock{}}
+	defer func() { m.s.close() }() // shaping may have replaced the session
 	m.wmark = m.getInt("H0_W")
 	if n, kept := m.refinePreconditions(spec); n > 0 {
 		detail["precondition_refinement"] = fmt.Sprintf("%d instances over the candidate's own ranges; refined candidate accepted: %v", n, kept)
@@ -117,8 +134,8 @@ func genericReplay(eng *Engine, ob *Obligation, repo, verif string) (reproduced 
 	}
 	detail["inputs"] = inputs
 	detail["model_terms_read"] = m.nterms
-	detail["model_shaping_steps"] = m.shapes
-	sess.close()
+	detail["model_shaping_steps"] = m.shapes % 1000
+	m.s.close()
 	if len(m.notes) > 0 {
 		detail["approximations"] = m.notes
 	}
@@ -205,12 +222,15 @@ func genericReplay(eng *Engine, ob *Obligation, repo, verif string) (reproduced 
 		}
 	case "post":
 		var cl *Clause
-		if spec != nil {
+		if spec != nil && ob.Kind == "post" {
 			for i := range spec.Ensures {
 				if spec.Ensures[i].Text == ob.Text {
 					cl = &spec.Ensures[i]
 				}
 			}
+		}
+		if ob.Kind == "hint" {
+			cl = replayReturnHint(spec, ob)
 		}
 		if cl == nil {
 			detail["note"] = "postcondition clause of " + ob.Name + " not found in the contract"
@@ -260,6 +280,18 @@ func genericReplay(eng *Engine, ob *Obligation, repo, verif string) (reproduced 
 	return failed, detail
 }
 
+func replayReturnHint(spec *FuncSpec, ob *Obligation) *Clause {
+	if spec == nil {
+		return nil
+	}
+	for i := range spec.Hints {
+		if spec.Hints[i].Where == "return" && spec.Hints[i].Clause.Text == ob.Text {
+			return &spec.Hints[i].Clause
+		}
+	}
+	return nil
+}
+
 func replayOutcome(out string) string {
 	var ls []string
 	for _, l := range strings.Split(out, "\n") {
@@ -283,22 +315,24 @@ func replayOutcome(out string) string {
 // obligation was not decided (unknown / timeout: quantified background axioms), z3 with model-based quantifier
 // instantiation switched off stops after E-matching with `unknown` and a CANDIDATE model, which is good enough to try on
 // the real code (only the run decides).
-func openModelSession(ob *Obligation, script, looseExtra, prefer string, deadline time.Time) (*smtSession, string, error) {
+func openModelSession(ob *Obligation, script, light, looseExtra, smallExtra, prefer string, deadline time.Time) (*smtSession, string, error) {
 	type cand struct {
 		name      string
 		args      []string
 		candidate bool // accept `unknown` + model
+		short     bool // with the preference for short quantifier ranges
+		small     bool // with the preference for short slices everywhere
 	}
 	exact := []cand{
-		{"z3-new", []string{"z3-new", "-in"}, false},
-		{"z3-new/noauto", []string{"z3-new", "-in", "smt.auto_config=false"}, false},
-		{"z3", []string{"z3", "-in"}, false},
+		{name: "z3-new", args: []string{"z3-new", "-in"}},
+		{name: "z3-new/noauto", args: []string{"z3-new", "-in", "smt.auto_config=false"}},
+		{name: "z3", args: []string{"z3", "-in"}},
 	}
 	loose := []cand{
-		{"z3-new/mbqi=false", []string{"z3-new", "-in", "smt.mbqi=false"}, true},
+		{name: "z3-new/mbqi=false", args: []string{"z3-new", "-in", "smt.mbqi=false"}, candidate: true},
 		// the old arithmetic core gives up on nonlinear terms (x % len) quickly instead of searching for minutes
-		{"z3-new/mbqi=false,arith.solver=2", []string{"z3-new", "-in", "smt.mbqi=false", "smt.auto_config=false", "smt.arith.solver=2"}, true},
-		{"z3/mbqi=false", []string{"z3", "-in", "smt.mbqi=false"}, true},
+		{name: "z3-new/mbqi=false,arith.solver=2", args: []string{"z3-new", "-in", "smt.mbqi=false", "smt.auto_config=false", "smt.arith.solver=2"}, candidate: true},
+		{name: "z3/mbqi=false", args: []string{"z3", "-in", "smt.mbqi=false"}, candidate: true},
 	}
 	var order []cand
 	if ob.Result != nil && ob.Result.Verdict == "sat" {
@@ -313,9 +347,23 @@ func openModelSession(ob *Obligation, script, looseExtra, prefer string, deadlin
 			}
 		}
 	}
+	// every attempt runs in a fresh solver (a timed-out attempt slows the following ones down a lot): first with the
+	// preferences for short quantifier ranges and small data (cheap when satisfiable), then without
+	if strings.TrimSpace(prefer) != "" {
+		p := loose[0]
+		p.name += "+small-data+short-ranges"
+		p.short, p.small = true, true
+		order = append(order, p)
+	}
+	for _, c := range loose[:2] {
+		c.name += "+small-data"
+		c.small = true
+		order = append(order, c)
+	}
 	order = append(order, loose...)
 	// (push 1) right after set-logic selects z3's incremental core, which keeps a candidate model after `unknown`
 	script = strings.Replace(script, "(set-logic ALL)\n", "(set-logic ALL)\n(push 1)\n", 1) + "\n"
+	light = strings.Replace(light, "(set-logic ALL)\n", "(set-logic ALL)\n(push 1)\n", 1) + "\n"
 	var last string
 	for i, c := range order {
 		remaining := time.Until(deadline)
@@ -323,9 +371,18 @@ func openModelSession(ob *Obligation, script, looseExtra, prefer string, deadlin
 			break
 		}
 		// one solver may use at most 40% of what is left (the model queries need the rest), later ones at most 20 s
-		per := remaining * 3 / 10
-		if i > 0 && per > 20*time.Second {
-			per = 20 * time.Second
+		per := remaining * 35 / 100
+		if i > 0 && per > 30*time.Second {
+			per = 30 * time.Second
+		}
+		if c.short && per > 15*time.Second {
+			per = 15 * time.Second
+		}
+		if c.small && per > 25*time.Second {
+			per = 25 * time.Second
+		}
+		if remaining < 45*time.Second {
+			break // keep time for reading the model
 		}
 		s, err := startSession(c.name, c.args, time.Now().Add(per))
 		if err != nil {
@@ -334,32 +391,31 @@ func openModelSession(ob *Obligation, script, looseExtra, prefer string, deadlin
 		}
 		sc := script
 		if c.candidate {
-			sc += looseExtra // replay_ground.go: heap typing axioms + ground instances of the preconditions
+			sc = light + looseExtra // replay_ground.go: heap typing axioms + ground instances of the preconditions
+		}
+		if c.small {
+			sc = light + smallExtra
+		}
+		if c.short {
+			sc += prefer
 		}
 		if d := os.Getenv("GOVC_REPLAY_DEBUG"); d != "" {
-			os.WriteFile(filepath.Join(d, "replay-session-"+mangle(c.name)+".smt2"), []byte(sc+"(push 1)\n"+prefer+"(check-sat)\n"), 0o644)
+			os.WriteFile(filepath.Join(d, "replay-session-"+mangle(c.name)+".smt2"), []byte(sc+"(check-sat)\n"), 0o644)
 		}
 		if err := s.write(sc); err != nil {
 			s.close()
 			last = err.Error()
 			continue
 		}
-		r := ""
-		if c.candidate && strings.TrimSpace(prefer) != "" {
-			// first with the preference for short quantifier ranges, then without
-			s.write("(push 1)\n" + prefer)
-			if r = s.checkSat(); r != "sat" && r != "unknown" {
-				s.write("(pop 1)\n")
-				r = ""
-			}
-		}
-		if r == "" {
-			r = s.checkSat()
+		r := s.checkSat()
+		if r == "unknown" && !s.incompleteOnly() {
+			r = "unknown (gave up: no usable candidate)"
 		}
 		if r == "sat" || (r == "unknown" && c.candidate) {
 			if _, err := s.getValues([]string{"H0_W"}); err == nil {
 				s.deadline = deadline
 				s.base = r
+				s.args, s.script = c.args, sc
 				return s, c.name, nil
 			}
 			r += " (no model available)"
